@@ -31,6 +31,7 @@ EXPLANATION = (
     "It does NOT "
     "decide the verdict equalities over data (accept_SAD <=> accept_SO and accept_DO)."
     " (R8) in the pandas / polars schema backends a `raise SchemaError(reason_code=R)` whose R is mapped to the SCHEMA scope and that sits in a function without @validate_scope (a parser-pipeline step such as strict_filter_columns) is conditional on the validation depth; INVALID_COLUMN_NAME (a definition error) is the listed exception. (R9) every `add_schema` call site (the 'already validated' marker trusted by check_types and DataFrame[Model]) is behind the enabled gate: inside a schema backend or guarded by validation_enabled."
+    ' (R10) a pandas backend `validate` attaches the validated marker (add_schema) only on paths whose condition depends on the validation depth - a reduced-depth run must not make later full-depth check_types calls skip validation; today the marker is attached at every depth (known finding).'
 )
 LEVEL_RULE = ("obligations are (rule, function, construct) triples enumerated from the current tree; distinct = "
               "distinct triples; every one is non-trivial in that it names a concrete construct of /repo")
@@ -756,6 +757,41 @@ def r9_nothing_marked_validated_while_disabled(ctx):
         raise AnalysisError(f"add_schema call sites found: {n}")
 
 
+def r10_validated_marker_means_full_depth(ctx):
+    """`<obj>.pandera.add_schema(S)` marks an object as "validated against S"; `check_types` and `DataFrame[Model]` skip
+    validation for a marked object whatever configuration is in force *then*.  A validation run at a reduced depth checks
+    only part of S, so the marker may be attached by a backend `validate` only when the depth in force is the full one -
+    otherwise the effect of `config_context(validation_depth=SCHEMA_ONLY)` outlives the context: a frame validated inside
+    it passes a later full-depth `@check_types` call although it violates a data-level check."""
+    ix = ctx.ix
+    n = 0
+    for bc in schema_backend_classes(ix, ("pandas",)):
+        for f in bc.methods.get("validate", []):
+            sites = [c for c in calls_in(f.node) if callee_last(c) == "add_schema" and isinstance(c.func, ast.Attribute)]
+            if not sites:
+                continue
+            cfg = cfg_of(f.node)
+            ex = Expander(f.node)
+            for c in sites:
+                n += 1
+                ctx.touched(f)
+                st = c
+                while not isinstance(st, ast.stmt):
+                    st = st._parent
+                node = cfg.node_of(st)
+                try:
+                    pc = path_condition(cfg, node.id, keep=lambda t, nn: "validation_depth" in t or "ValidationDepth" in t, expand=ex) if node is not None else ((), frozenset())
+                except ValueError:
+                    pc = ((), frozenset())
+                ok = bool(pc[0])
+                ctx.ob("R10", f, f"{f.short}: the validated marker is attached only at full validation depth", ok,
+                       "conditional on the depth" if ok else
+                       f"`{txt(c)[:50]}` marks the object at every depth: with config_context(validation_depth=SCHEMA_ONLY): marked = Model.validate(raw); a later "
+                       "@check_types call at SCHEMA_AND_DATA skips validation of `marked` although Field(gt=0) is violated", f.loc(c))
+    if n < 1:
+        raise AnalysisError("pandas backends: no validate attaches the validated marker")
+
+
 def run(ctx):
     r1_env_table(ctx)
     r2_config_context(ctx)
@@ -766,5 +802,6 @@ def run(ctx):
     r7_coercion_mode(ctx)
     r8_schema_level_raises_are_depth_scoped(ctx)
     r9_nothing_marked_validated_while_disabled(ctx)
+    r10_validated_marker_means_full_depth(ctx)
     ctx.assume("os.environ is read only through os.environ.get/os.getenv/os.environ[...] inside pandera/config.py")
     ctx.assume("validate_scope implements skip-by-depth as written (its body is covered by R3's decorator lookup, not re-proved)")
